@@ -36,6 +36,7 @@ class Outcome:
         self.model_violation = None
         self.notes = []
         self.known_files = []  # trace parts lying inside a known finding's signature
+        self.file_cmd = {}     # trace file -> harness command that produced it (stages whose executions cannot be re-run call by call)
 
 
 def run_stage(work, drive, st, seed, out, model_invs, model_props):
@@ -104,6 +105,8 @@ def run_stage(work, drive, st, seed, out, model_invs, model_props):
         args = ["arena", "-kind", st.kind, "-u", st.uname, "-seed", str(useed), "-out", trace, "-battery", st.battery, "-stats", stats,
                 "-n", str(st.kw.get("n", 4)), "-len", str(st.kw.get("len", 50))]
         run_drive(drive, args)
+        out.file_cmd[trace] = {"variant": st.kw.get("variant", "plain"), "args": args[:args.index("-out")] + args[args.index("-out") + 2:args.index("-stats")] + args[args.index("-stats") + 2:],
+                               "label": st.label()}
         return ("trace", st, trace, stats, None)
     raise Infra("unknown stage type " + st.typ)
 
@@ -148,7 +151,11 @@ def tree_pipeline(work, prop, stages, invariants, seed, model_invs=None, model_p
             if tainted:
                 out.known_files.append(tainted)
             continue
-        files += split_trace(trace, CHUNK)
+        parts = split_trace(trace, CHUNK)
+        if trace in out.file_cmd:
+            for pth in parts:
+                out.file_cmd[pth] = out.file_cmd[trace]
+        files += parts
     for r in out.model_runs:
         out.model_states += r["states"]
         out.model_transitions += r["transitions"]
